@@ -38,6 +38,7 @@ def cfgOfArgs (kv : List (String × String)) : Cfg :=
     validatesULen := triArg kv "validatesULen" true
     boundsCompressedSize := triArg kv "boundsCompressedSize" false
     boundsDecodedLen := triArg kv "boundsDecodedLen" false
+    parseConsumesAll := triArg kv "parseConsumesAll" false
     v2Fallback := triArg kv "v2Fallback" true
     rejectsLongName := triArg kv "rejectsLongName" false }
 
